@@ -516,17 +516,42 @@ func runC14(c *Ctx) {
 	{
 		var wTokens []string
 		var wTags []string
+		headerArg := func(a ast.Expr) {
+			if s, ok := strConst(info, a); ok {
+				wTokens = append(wTokens, s)
+			}
+			if inner, ok := identDef(info, unified, a).(*ast.CallExpr); ok {
+				if id, ok := inner.Fun.(*ast.Ident); ok && id.Name == "uspan" && len(inner.Args) == 3 {
+					if s, ok := strConst(info, inner.Args[0]); ok {
+						wTags = append(wTags, s)
+					}
+				}
+			}
+		}
 		for _, call := range callsIn(unified, "Fprintln") {
 			for _, a := range call.Args[1:] {
-				if s, ok := strConst(info, a); ok {
-					wTokens = append(wTokens, s)
-				}
-				if inner, ok := identDef(info, unified, a).(*ast.CallExpr); ok {
-					if id, ok := inner.Fun.(*ast.Ident); ok && id.Name == "uspan" && len(inner.Args) == 3 {
-						if s, ok := strConst(info, inner.Args[0]); ok {
-							wTags = append(wTags, s)
-						}
+				headerArg(a)
+			}
+		}
+		// the same line written with a format: words of the format are tokens, %s / %v stand for the next operand
+		for _, call := range callsIn(unified, "Fprintf") {
+			if len(call.Args) < 2 {
+				continue
+			}
+			format, ok := strConst(info, call.Args[1])
+			if !ok || !strings.HasSuffix(format, "\n") {
+				continue
+			}
+			rest := call.Args[2:]
+			for _, w := range strings.Split(strings.TrimSuffix(format, "\n"), " ") {
+				switch {
+				case w == "%s" || w == "%v":
+					if len(rest) > 0 {
+						headerArg(rest[0])
+						rest = rest[1:]
 					}
+				case !strings.Contains(w, "%"):
+					wTokens = append(wTokens, w)
 				}
 			}
 		}
